@@ -239,6 +239,7 @@ func (c *Ctx) blockingDiscipline(table []bareOp, minSelects int) {
 	// bare operations
 	type k3 struct{ fn, kind, key string }
 	found := map[k3][]string{}
+	foundFn := map[k3][]string{} // the function (literal) each site sits in
 	tabledKeys := map[k3]bool{}
 	for _, t := range table {
 		tabledKeys[k3{t.fn, t.kind, t.key}] = true
@@ -256,6 +257,7 @@ func (c *Ctx) blockingDiscipline(table []bareOp, minSelects int) {
 			}
 		}
 		found[k] = append(found[k], c.at(s.in))
+		foundFn[k] = append(foundFn[k], c.nm(s.fn))
 	}
 	tabled := map[k3]bareOp{}
 	for _, t := range table {
@@ -276,6 +278,28 @@ func (c *Ctx) blockingDiscipline(table []bareOp, minSelects int) {
 		if !ok {
 			c.fail(construct, at[0], fmt.Sprintf("bare channel %s on %s in %s (at %s) is not a tabled site: an unconditional %s with no quit alternative can block forever (at shutdown nobody may be on the other side)", k.kind, k.key, k.fn, join(at), k.kind), at...)
 			continue
+		}
+		if t.class == "semaphore" {
+			// the token discipline is the supporting obligation (every
+			// spawner / worker pair is examined there); here: the function
+			// that makes the semaphore puts the first token in, and every
+			// other function (a worker literal) gives a token back at one
+			// place only. A spawner that is written out at each of its call
+			// sites has one worker literal per site.
+			per := map[string]int{}
+			for _, f := range foundFn[k] {
+				per[f]++
+			}
+			okSem := true
+			for _, n := range per {
+				if n > 1 {
+					okSem = false
+				}
+			}
+			if okSem && len(at) >= 2 {
+				c.pass(construct, at[0], fmt.Sprintf("%d site(s) in %d function(s), at most one each, class %s: %s", len(at), len(per), t.class, t.why), at...)
+				continue
+			}
 		}
 		if len(at) > t.n {
 			c.fail(construct, at[0], fmt.Sprintf("%d bare %s site(s) on %s in %s, the table knows %d (%s): a new unconditional %s was added", len(at), k.kind, k.key, k.fn, t.n, t.class, k.kind), at...)
